@@ -42,6 +42,15 @@ def run(ctx):
                       "accepting exit at %s is past (adjacent AND next-validators AND parent-hash) OR trusting commit verification" % x["loc"],
                       site=x["loc"], key="C02.verify.link|" + ("adjacent" if holds(ctx, f, adj, t)[0] else "skipping"),
                       detail=dict(adjacent_arm=a_ok, trusting_arm=t_ok))
+    # the non-adjacent arm relies on the trusting verification counting every trusted validator once
+    from rules.C03 import TRUST, SEEN, seen_key_rule
+    g = ctx.anchor(TRUST)
+    if g:
+        tally = call_sites_with(ctx, g, ["*validator::Info::power"])
+        if tally:
+            require_guard(ctx, g, Has(SEEN, name="double-vote lookup rejects before tally"), "C02.trusting.double-vote", targets=tally)
+        seen_key_rule(ctx, g, "C02")
+        require_guard(ctx, g, Cmp(["call:*validator::Info::power"], ["call:*TrustLevelRatio::voting_power_needed"], pass_op="Gt", name="accept only on tallied > needed"), "C02.trusting.threshold")
     k = const_value(ctx, T + "extended_header::VERIFY_CLOCK_DRIFT")
     va = ctx.anchor(EH + "verify_adjacent")
     if va:
